@@ -18,7 +18,7 @@ check("C01", "exploration",
 check("C07", "exploration",
       "Generated Start/Stop/cancel histories (sequential and concurrent groups) on real systems inside a synctest bubble, judged by a reference state machine (linearizability of each concurrent group), exact virtual-time return instants, all-actors-terminated and a goroutine-leak scan of the bubble; hangs on a mutex are classified from goroutine stacks.",
       "Trusted: testing/synctest virtual clock; interleavings inside a concurrent group are the Go scheduler's (sampled, not owned). Remoting-enabled systems are covered by the rlab checks.",
-      "model-based property testing (rapid) against a reference state machine, in virtual time",
+      "model-based property testing (rapid) against a reference state machine, in virtual time; generated trees, real sockets for the remoting unit, and a generated position of a top-level spawn racing Stop (spawnstop unit)",
       "DESIGN.md §4 C07")
 
 check("C16", "exploration",
@@ -58,13 +58,13 @@ check("C13", "fault_enumeration",
 check("C05", "exploration",
       "Generated actor trees, failure plans and scripts run on the real runtime in virtual time; the complete per-actor behaviour trace is judged by a lifecycle state machine (OnLaunch first, nothing after own OnKilled, restart = new incarnation that starts with its own OnLaunch, behaviour reset, instance per provider) and by OnLaunch accounting over all actors.",
       "Sampling of scenarios; sequential mode is deterministic, racing mode samples Go-scheduler interleavings. Trusted: testing/synctest quiescence.",
-      "model-based property testing (rapid) of generated histories against a per-actor lifecycle state machine, in virtual time",
+      "model-based property testing (rapid) of generated histories against a per-actor lifecycle state machine, in virtual time; plus generated positions of a parked termination chain (window unit)",
       "DESIGN.md §4 C05, §3.5")
 
 check("C03", "exploration",
       "Generated histories of spawn / tell / kill / failure+decision / restart / stash with drawn target states and reference provenance run on the real runtime in virtual time; a conservation oracle over the complete trace and the dead-letter stream decides, at exact quiescence, that no message id vanished or was duplicated; a stopped system must stay quiescent.",
       "Sampling of scenarios and (in racing mode) of interleavings; 'never delivered' is decided by synctest quiescence, not by a timeout.",
-      "model-based property testing (rapid): conservation invariant over generated histories, in virtual time with a quiescence oracle",
+      "model-based property testing (rapid): conservation invariant over generated histories, in virtual time with a quiescence oracle; plus generated positions of a parked termination chain (window unit)",
       "DESIGN.md §4 C03, §3.5")
 
 check("C08", "exploration",
@@ -76,13 +76,13 @@ check("C08", "exploration",
 check("C09", "exploration",
       "Generated failure plans (every decision and strategy, bursts with the failure at every position, concurrent failures, failing restart hooks) run on the real runtime in virtual time; at exact quiescence the mailbox pause flag and lifecycle state of every registered actor are read white-box, the queued burst is checked for conservation / order / delivery, probes sent afterwards must be handled, zombies must stay silent and be released by Kill.",
       "Sampling of scenarios; 'stuck' is decided by synctest quiescence plus white-box state, not by a timeout. Concurrent-failure cases check only the schedule-independent clauses.",
-      "property-based testing (rapid) with history invariants and white-box state reads at a quiescence oracle, in virtual time",
+      "property-based testing (rapid) with history invariants and white-box state reads at a quiescence oracle, in virtual time; plus generated positions of a parked actor on the supervision path (supwindow unit) and a reference model for combination actors",
       "DESIGN.md §4 C09")
 
 check("C06", "exploration",
       "Generated trees, watcher / subscription / job set-ups and kill sequences (repeated, concurrent, racing spawns and late watchers) run on the real runtime in virtual time; global history invariants over the trace, the event stream and white-box tables decide subtree termination, children-first order, exactly-once notification and release of path / subscriptions / jobs.",
       "Sampling of scenarios and interleavings; quiescence by testing/synctest.",
-      "property-based testing (rapid): history invariants over generated kill scenarios, virtual time, white-box table reads",
+      "property-based testing (rapid): history invariants over generated kill scenarios, virtual time, white-box table reads; plus generated positions of a parked termination chain (window unit)",
       "DESIGN.md §4 C06")
 
 check("C04", "exploration",
@@ -100,7 +100,7 @@ check("C02", "exploration",
 check("C19", "exploration",
       "Generated Subscribe / Unsubscribe / UnsubscribeAll / Publish / kill / restart scripts over several actors and event types run on the real runtime in virtual time; a reference model of the subscriber sets decides every publication (exactly the subscribers, exactly once), plus order per publisher, white-box table contents at quiescence and a final probe publication per type.",
       "Sequential cases are exact; racing cases check the schedule-independent clauses only. Sampling of scripts and interleavings.",
-      "model-based property testing (rapid): reference model of subscriber sets vs the real event stream, virtual time, white-box table reads",
+      "model-based property testing (rapid): reference model of subscriber sets vs the real event stream, virtual time, white-box table reads; plus generated positions of a parked termination chain with the name handed over (handover unit)",
       "DESIGN.md §4 C19")
 
 check("C20", "exploration",
@@ -166,7 +166,7 @@ def main():
         ],
         "checks": checks,
         "not_applicable": na,
-        "notes": "All checks are property-based tests / fuzzers (pgregory.net/rapid v1.3.0, native go fuzzing in thorough tiers) run against the real vivid code. VERIF_SEED selects the rapid seed. Exit 2 = inconclusive (never a verdict). Fix commits in /repo are listed in known_findings.json with status fixed.",
+        "notes": "All checks are property-based tests / fuzzers (pgregory.net/rapid v1.3.0; generated cases, histories, schedules - including generator-owned positions of a slow actor, DESIGN.md 3.2 - and faults; no registered command uses native go fuzzing, DESIGN.md 9.1) run against the real vivid code. VERIF_SEED selects the rapid seed. Exit 2 = inconclusive (never a verdict). Fix commits in /repo are listed in known_findings.json with status fixed.",
     }
     json.dump(m, open(os.path.join(HERE, "MANIFEST.json"), "w"), indent=1, ensure_ascii=False)
     print("MANIFEST.json:", len(checks), "checks,", len(na), "not_applicable")
